@@ -470,11 +470,56 @@ pub fn permuting_history(rng: &mut Rng, target_src: &str) -> String {
     s
 }
 
+/// Programs around name resolution and type tables: glob imports of two modules exporting one
+/// name, a bare type name declared by two modules, two sum types sharing a constructor name,
+/// quoted code with a tuple `let` (desugared through a per-thread name counter).
+pub fn gen_nameprog(rng: &mut Rng) -> String {
+    let mut words: Vec<&str> = WORDS.to_vec();
+    rng.shuffle(&mut words);
+    let w = |i: usize| words[i];
+    let k = |r: &mut Rng| crate::util::lit(r.range(1, 40) as f64 * 0.25);
+    match rng.below(4) {
+        0 => format!(
+            "mod {a} {{\n    pub fn {f}(x) {{ x + {} }}\n    pub fn only{a}(x) {{ x * 2.0 }}\n}}\nmod {b} {{\n    pub fn {f}(x) {{ x * {} }}\n    pub fn only{b}(x) {{ x * 3.0 }}\n}}\nuse {a}::*\nuse {b}::*\n\nfn dsp() {{\n    {f}(2.0) + only{a}(1.0) + only{b}(1.0)\n}}\n",
+            k(rng),
+            k(rng),
+            a = w(0),
+            b = w(1),
+            f = w(2)
+        ),
+        1 => format!(
+            "mod {a} {{\n    pub type alias F{t} = (float, float)\n    pub fn spread(x) {{ (x, x * 0.5) }}\n}}\nmod {b} {{\n    pub type alias F{t} = (float, float, float)\n    pub fn spread(x) {{ (x, x * 0.5, x * 0.25) }}\n}}\n\nfn pass{p}(f: F{t}) {{\n    f\n}}\n\nfn dsp() {{\n    let (l, r) = pass{p}({a}::spread({}))\n    let (a, b, c) = {b}::spread(1.0)\n    l + r + a + b + c\n}}\n",
+            k(rng),
+            a = w(0),
+            b = w(1),
+            t = w(2),
+            p = w(3)
+        ),
+        2 => format!(
+            "type S{a} = On{c}(float) | Off{a}(float,float)\ntype S{b} = On{c}(float,float) | Off{b}(float)\nfn f{a}(s:S{a}) -> float {{\n  match s {{\n    On{c}(x) => x * {},\n    Off{a}(p,q) => p + q\n  }}\n}}\nfn dsp() {{\n    f{a}(Off{a}(1.0, {}))\n}}\n",
+            k(rng),
+            k(rng),
+            a = w(0),
+            b = w(1),
+            c = w(2)
+        ),
+        _ => format!(
+            "#stage(macro)\nfn gen{g}(n:float){{\n    `{{ |x:float| {{\n        let (p{a}, q{b}) = (x, x * {})\n        p{a} + q{b} * $(n |> lift_f)\n    }} }}\n}}\n#stage(main)\nfn dsp() {{\n    gen{g}!({})(2.0)\n}}\n",
+            k(rng),
+            k(rng),
+            g = w(0),
+            a = w(1),
+            b = w(2)
+        ),
+    }
+}
+
 pub fn gen_c15(seed: u64, corpus: &[String]) -> DetRun {
     let root = Rng::new(seed);
     let mut r_cfg = root.sub("swarm");
     let mut r = root.sub("workload");
-    let target = match r_cfg.below(10) {
+    let target = match r_cfg.below(12) {
+        10..=11 => Src::Text(gen_nameprog(&mut r)),
         0..=3 => Src::Text(gen_idprog(&mut r)),
         4..=5 => {
             let sc = crate::hotswap::gen_c06(r.next_u64());
@@ -492,7 +537,8 @@ pub fn gen_c15(seed: u64, corpus: &[String]) -> DetRun {
     for _ in 0..hist_len {
         let src = match r.below(10) {
             0..=2 => Src::Text(permuting_history(&mut r, &tsrc)),
-            3..=4 => Src::Text(gen_idprog(&mut r)),
+            3 => Src::Text(gen_idprog(&mut r)),
+            4 => Src::Text(gen_nameprog(&mut r)),
             5 => target.clone(),
             _ => Src::File(r.pick(corpus).clone()),
         };
